@@ -37,6 +37,8 @@ def _mutations(V):
 
 
 def check(ctx):
+    from .c39 import insert_at_index
+    insert_at_index(ctx, "T9-insert")
     ctx.rule("T8-atomic", "no path from a mutation (index write or remote attribute write) to a raise")
     ctx.rule("T6-add-remove", "add checks and inserts all three keys; remove deletes all three")
     ctx.rule("T6-rekey", "move/rename/reha: own attribute, own index, same position, new key checked against index and local")
